@@ -108,7 +108,10 @@ func (s *StoreManager) Deliver(
 		inbound = extResult
 	}
 
-	// Deliver to each mailbox.
+	// Deliver to each mailbox.  The sender is told that the message was not accepted when any of
+	// these fails (and will send it again), so a failure must not leave copies behind.
+	type storedCopy struct{ mailbox, id string }
+	var copies []storedCopy
 	for _, mb := range inbound.Mailboxes {
 		// Append recipient and timestamp to generated Received header.
 		recvd := fmt.Sprintf("%s  for <%s>; %s\r\n", recvdHeader, mb, tstamp)
@@ -129,8 +132,15 @@ func (s *StoreManager) Deliver(
 		id, err := s.Store.AddMessage(delivery)
 		if err != nil {
 			logger.Error().Str("mailbox", mb).Err(err).Msg("Delivery failed")
+			for _, c := range copies {
+				if rerr := s.Store.RemoveMessage(c.mailbox, c.id); rerr != nil {
+					logger.Error().Str("mailbox", c.mailbox).Str("id", c.id).Err(rerr).
+						Msg("Failed to undo partial delivery")
+				}
+			}
 			return err
 		}
+		copies = append(copies, storedCopy{mailbox: mb, id: id})
 
 		// Emit message stored event.
 		event := delivery.Meta
